@@ -42,3 +42,12 @@ Definition uadd (a b : N) : N := (a + b) mod W32.
 Definition umul (a b : N) : N := (a * b) mod W32.
 (* a - b in unsigned arithmetic (wraps below zero) *)
 Definition usub (a b : N) : N := (a + W32 - b mod W32) mod W32.
+
+(* exception classes, as printed by the drivers (harness/common.h: exn_name) *)
+Definition EXN_NOTIMPL : N := 1.     (* NotImplementedError *)
+Definition EXN_DOMAIN : N := 2.      (* DomainError *)
+Definition EXN_DIVZERO : N := 3.     (* DivisionByZeroError *)
+Definition EXN_PARSE : N := 4.       (* ParseError *)
+Definition EXN_SERIAL : N := 5.      (* SerializationError *)
+Definition EXN_SYMENGINE : N := 6.   (* any other SymEngineException *)
+Definition EXN_STD : N := 7.         (* std::exception not from SymEngine *)
